@@ -7,7 +7,8 @@
 (***************************************************************************)
 EXTENDS C19, Json, Params
 
-Obs == ndJsonDeserialize(ObsFile)
+Obs   == ndJsonDeserialize(ObsFile)
+Cases == ndJsonDeserialize(CasesFile)      \* C19_MC's own output: [id, ..., den]; o.ci indexes it (0 for "raw")
 N == Len(Obs)
 W == 16
 
@@ -15,16 +16,20 @@ CaseOfObs(o) == Case(o.cs.kind, o.cs.type, o.cs.rid, o.cs.ver, o.cs.base, o.cs.r
 
 Verdict(o) ==
   LET cs == CaseOfObs(o)
-      echoOk == o.cs.kind = "raw" \/ (o.cs.text = TextOf(cs) /\ o.cs.rel = RelOf(cs))
+      generated == o.ci >= 1 /\ o.ci <= Len(Cases)
+      (* the harness echoes the case; it must be the case TLC generated *)
+      echoOk == IF cs.kind = "raw" THEN o.ci = 0
+                ELSE generated /\ Cases[o.ci].id = o.cs.id /\ CaseId(cs) = o.cs.id /\ Cases[o.ci].text = o.cs.text
+      d == IF cs.kind = "raw" THEN Denote(cs) ELSE Cases[o.ci].den
       checks == IF ~echoOk THEN << Chk("case", "malformed") >>
                 ELSE IF o.aspect \notin AspectsOf(cs.kind) THEN << Chk("aspect", "malformed") >>
-                ELSE ChecksOf(o, cs)
+                ELSE ChecksOf(o, cs, d)
       bad == {i \in 1..Len(checks) : checks[i].problem # ""}
       first == CHOOSE i \in bad : \A j \in bad : i <= j
       good == bad = {}
   IN [id |-> o.id, ok |-> good,
       sig |-> IF good THEN "" ELSE "ref|" \o o.aspect \o "|" \o checks[first].name \o "|" \o CaseClass(cs) \o "|" \o checks[first].problem,
-      want |-> IF cs.kind = "raw" THEN CaseClass(cs) ELSE TextOf(cs)]
+      want |-> IF cs.kind = "raw" THEN CaseClass(cs) ELSE o.cs.id]
 
 VARIABLE i
 Init == i \in 1..(IF N < W THEN N ELSE W) /\ PrintT(ToJson(Verdict(Obs[i])))
